@@ -396,6 +396,29 @@ fn report_proxy_agent_aggregate_status(
     }
 }
 
+/// Verification hook H7 (compiled only with `--cfg azure_guestproxyagent_verif`): tap on the private
+/// per-poll status function of the monitor loop.
+#[cfg(azure_guestproxyagent_verif)]
+pub mod verif_taps {
+    use super::*;
+
+    pub fn report_proxy_agent_aggregate_status(
+        proxyagent_file_version_in_extension: &String,
+        status: &mut StatusObj,
+        status_state_obj: &mut common::StatusState,
+        restored_in_error: &mut bool,
+        service_state: &mut ServiceState,
+    ) {
+        super::report_proxy_agent_aggregate_status(
+            proxyagent_file_version_in_extension,
+            status,
+            status_state_obj,
+            restored_in_error,
+            service_state,
+        )
+    }
+}
+
 fn extension_substatus(
     proxy_agent_aggregate_status_top_level: GuestProxyAgentAggregateStatus,
     proxyagent_file_version_in_extension: &String,
